@@ -239,6 +239,48 @@ def work(item):
                                        {"sent": [code, lines]}, replay={"unencodable": [enc, code, list(lines), mode]})
                 finally:
                     rig.close()
+        elif kind == "waits":
+            # the wait masks of Client.command: replies that agree with a wait mask are skipped - all of them, however
+            # many - and the first one that does not is the answer; the stream stays in step for the next command
+            from vf.fakeserver import FakeServer
+            for pre_codes, final, expected, wait in payload:
+                raw = "".join(f"{c} wait\r\n" for c in pre_codes) + f"{final} done\r\n"
+                w2 = World()
+                try:
+                    fs = FakeServer({"SITE": raw.encode(), "NOOP": b"226 next\r\n"})
+                    w2.run(fs.start())
+                    res = []
+
+                    async def main():
+                        c = a.Client(path_io_factory=a.MemoryPathIO)
+                        await c.connect("127.0.0.1", 2121)
+                        await c.login()
+                        try:
+                            code, info = await c.command("SITE x", expected, wait)
+                            res.append((str(code), list(info)))
+                        except a.StatusCodeError as exc:
+                            res.append(("StatusCodeError", [str(x) for x in exc.received_codes]))
+                        try:
+                            code, info = await c.command("NOOP", "2xx")
+                            res.append((str(code), list(info)))
+                        except a.StatusCodeError as exc:
+                            res.append(("StatusCodeError", [str(x) for x in exc.received_codes]))
+                        c.close()
+                    try:
+                        w2.run(main())
+                    except Hang:
+                        res.append(("HANG", []))
+                    part.evaluations += 1
+                    want = [(final, [" done"]), ("226", [" next"])]
+                    kk = report.fp(["waits", pre_codes, final, expected, wait])
+                    part.states.add(kk)
+                    part.nontrivial.add(kk)
+                    if res != want:
+                        part.violation({"kind": "wait-masks", "preliminary_replies": len(pre_codes)},
+                                       {"stream": raw, "expected": expected, "wait": wait, "got": res, "want": want},
+                                       replay={"waits": [list(pre_codes), final, expected, wait]})
+                finally:
+                    w2.close()
         elif kind == "long":
             # long reply lines through a *real* client connection (its own StreamReader and limits), 8 KiB .. 60 KiB
             from vf.fakeserver import FakeServer
@@ -365,6 +407,14 @@ def build_items(tier):
         items.append(("unencodable", (enc, cases)))
     for n in (1000, 8191, 8192, 8193, 16384, 40000, 60000):
         items.append(("long", [n]))
+    waits = []
+    for wait, pres in (("1xx", ["150", "125", "120"]), ("120", ["120"]), (("1xx", "426"), ["150", "426"])):
+        for n in range(0, 4):
+            for pre in itertools.product(pres, repeat=n):
+                for final, expected in (("226", "2xx"), ("200", "200"), ("250", ("2xx", "3xx"))):
+                    waits.append((list(pre), final, expected, wait))
+    for i in range(0, len(waits), 40):
+        items.append(("waits", waits[i:i + 40]))
     return items
 
 
@@ -380,6 +430,8 @@ def run(tier, seed, t0):
               "pairs": "reduced alphabet, second reply in 3 shapes",
               "unencodable_replies": "latin-1 / ascii / cp1251 servers, 1-3 lines, the unrepresentable character on every line "
                                      "position, plain and list mode, through the real response writer and a real client",
+              "wait_masks": "Client.command with 0-3 preliminary replies that agree with its wait masks before the final one, "
+                            "then the next command on the same stream",
               "long_lines": "1000..60000 characters through a real client connection on SimNet (single, middle of a plain / list reply, PWD)", "masks": "all masks of length 0..3 over 0159xX?"}
     return report.finish(
         PID, tier, seed, "model_checking", part, t0,
@@ -398,6 +450,11 @@ def replay(path):
     if "unencodable" in rp:
         enc, code, lines, mode = rp["unencodable"]
         part = work(("unencodable", (enc, [(code, lines, mode)])))
+    elif "waits" in rp:
+        pre, final, expected, wait = rp["waits"]
+        expected = tuple(expected) if isinstance(expected, list) else expected
+        wait = tuple(wait) if isinstance(wait, list) else wait
+        part = work(("waits", [(pre, final, expected, wait)]))
     elif "latin1" in rp:
         enc, line = rp["latin1"] if isinstance(rp["latin1"], list) else ("latin-1", rp["latin1"])
         import aioftp as a
